@@ -131,31 +131,42 @@ def socializeLoss (b : Bank) (loss : Int) : Res (Bank × Bool) := do
 /-- saturating i32 position counters -/
 def satI32 (x : Int) : Int := if x > 2147483647 then 2147483647 else if x < -2147483648 then -2147483648 else x
 
+/-- `if collected > 0 { bucket = collected.checked_add(bucket)? }` -/
+def bumpFee (cur add : Int) : Res Int := if add > 0 then math (add? add cur) else .ok cur
+
+def applyFees (b : Bank) (ch : Interest.StateChanges) : Res Bank := do
+  let g ← bumpFee b.feeG ch.groupFees
+  let i ← bumpFee b.feeI ch.insuranceFees
+  let p ← bumpFee b.feeP ch.protocolFees
+  .ok { b with feeG := g, feeI := i, feeP := p }
+
+/-- `calc_interest_rate_accrual_state_changes(..).ok_or_else(math_error!())?` (a panic inside still aborts) -/
+def stateChangesOrErr (delta ta tl : Int) (ir : Interest.IrCalc) (asv lsv : Int) : Res Interest.StateChanges :=
+  match Interest.accrualStateChanges delta ta tl ir asv lsv with
+  | .ok c => .ok c
+  | .error .panic => .error .panic
+  | .error _ => merr E.MathError
+
+/-- the part of `accrue_interest` after the two early returns -/
+def accrueCore (b : Bank) (ir : Interest.IrCalc) (now delta ta tl : Int) : Res Bank := do
+  let ch ← stateChangesOrErr delta ta tl ir b.asv b.lsv
+  let d ← math (sub? ch.newAsv b.asv)
+  let acc ← math (mul? d b.sa)
+  applyFees { b with lastUpdate := now, cacheAccum := acc, cacheFor := min delta 4294967295,
+                     asv := ch.newAsv, lsv := ch.newLsv } ch
+
 /-- `accrue_interest(current_timestamp, group)`; `ir` = the calculator built from the bank's
     interest config and the group's fee cache / program-fee switch -/
-def accrueInterest (b : Bank) (ir : Interest.IrCalc) (now : Int) : Res Bank := do
+def accrueInterest (b : Bank) (ir : Interest.IrCalc) (now : Int) : Res Bank :=
   let delta := now - b.lastUpdate
   -- (current_timestamp - last_update): i64 subtraction under overflow-checks; `.try_into::<u64>().unwrap()`
   if delta < 0 ∨ delta > 9223372036854775807 then .error .panic
-  if delta = 0 then return b
-  let ta ← assetAmount b b.sa
-  let tl ← liabAmount b b.sl
-  let b1 := { b with lastUpdate := now }
-  if ta = 0 ∨ tl = 0 then return b1
-  let ch ← match Interest.accrualStateChanges delta ta tl ir b.asv b.lsv with
-    | .ok c => (.ok c : Res Interest.StateChanges)
-    | .error .panic => .error .panic
-    | .error _ => merr E.MathError
-  let d ← math (sub? ch.newAsv b.asv)
-  let acc ← math (mul? d b.sa)
-  let b2 := { b1 with cacheAccum := acc, cacheFor := min delta 4294967295, asv := ch.newAsv, lsv := ch.newLsv }
-  let b3 ← if ch.groupFees > 0 then do
-      let f ← math (add? ch.groupFees b2.feeG); pure { b2 with feeG := f } else pure b2
-  let b4 ← if ch.insuranceFees > 0 then do
-      let f ← math (add? ch.insuranceFees b3.feeI); pure { b3 with feeI := f } else pure b3
-  let b5 ← if ch.protocolFees > 0 then do
-      let f ← math (add? ch.protocolFees b4.feeP); pure { b4 with feeP := f } else pure b4
-  return b5
+  else if delta = 0 then .ok b
+  else do
+    let ta ← assetAmount b b.sa
+    let tl ← liabAmount b b.sl
+    if ta = 0 ∨ tl = 0 then .ok { b with lastUpdate := now }
+    else accrueCore b ir now delta ta tl
 
 /-! ### Balance -/
 
